@@ -555,6 +555,41 @@ func (g *genState) scriptRestart() {
 	}
 }
 
+// scriptRefusedCheckIn: every keyper of the newest configuration checks in properly except one, whose check-in has
+// a well-formed validator key and an encryption key that does not decompress (refused); then the keypers of the
+// configuration before it report its activation block, and the one keyper tries once more.
+func (g *genState) scriptRefusedCheckIn() {
+	if g.aim == nil {
+		return
+	}
+	cfgs := g.aim.App.Configs
+	last := cfgs[len(cfgs)-1]
+	if len(last.Keypers) == 0 {
+		return
+	}
+	prev := last
+	if len(cfgs) > 1 {
+		prev = cfgs[len(cfgs)-2]
+	}
+	r := g.r
+	x := r.Intn(len(last.Keypers))
+	bad := [][]byte{{}, {2, 1, 2, 3}, append([]byte{2}, bytesOf(0xFF, 32)...), append([]byte{5}, encKey(0)[1:]...), encKey(0)[:32]}[r.Intn(5)]
+	send := func(k common.Address, p Payload) {
+		g.script = append(g.script, &TxSpec{Signer: g.signerOf(k), Chain: g.chain, Nonce: g.freshNonce(), P: p})
+	}
+	for _, i := range r.Perm(len(last.Keypers)) {
+		p := Payload{Kind: "ci", ValKey: valKey(20 + i), EncKey: encKey(i % 3)}
+		if i == x {
+			p.EncKey = bad
+		}
+		send(last.Keypers[i], p)
+	}
+	for _, k := range prev.Keypers {
+		send(k, Payload{Kind: "bs", A: last.ActivationBlockNumber})
+	}
+	send(last.Keypers[x], Payload{Kind: "ci", ValKey: valKey(30 + x), EncKey: bad})
+}
+
 func (g *genState) tx() *TxSpec {
 	r := g.r
 	if len(g.script) > 0 && r.Chance(85) {
@@ -664,6 +699,10 @@ func GenHistory(r *hx.Rand, u *Universe, p GenParams) []*Op {
 			who := addrs[r.Intn(len(addrs))]
 			g.script = append(g.script, &TxSpec{Signer: g.signerOf(who), Chain: g.chain, Nonce: g.freshNonce(),
 				P: Payload{Kind: "ci", ValKey: valKey(50 + r.Intn(5)), EncKey: encKey(r.Intn(3))}})
+			if r.Chance(35) { // and once more with another validator key and an encryption key that is refused
+				g.script = append(g.script, &TxSpec{Signer: g.signerOf(who), Chain: g.chain, Nonce: g.freshNonce(),
+					P: Payload{Kind: "ci", ValKey: valKey(60 + r.Intn(5)), EncKey: append([]byte{2}, bytesOf(0xFF, 32)...)}})
+			}
 		}
 		if len(g.script) == 0 {
 			switch k := r.Intn(100); {
@@ -679,6 +718,8 @@ func GenHistory(r *hx.Rand, u *Universe, p GenParams) []*Op {
 				g.scriptDuplicateKeyper()
 			case k < 42:
 				g.scriptRepeatedAddress()
+			case k < 47:
+				g.scriptRefusedCheckIn()
 			}
 		}
 		ntx := r.Intn(p.TxPerBlock + 1)
